@@ -65,7 +65,8 @@ Inductive pinref :=
 | PIn (port : oname) (bit : nat)
 | POut (inst : oname) (port : oname) (bit : nat)
 | PDang (inst : oname) (rdef rlib : oname) (port : oname) (bit : nat)
-| PForeign.  (* a pin the comparer cannot follow (no port / no instance): outside the model *)
+| PForeign   (* a pin the comparer cannot follow (no instance, foreign port): outside the model *)
+| PLoose.    (* an inner pin that belongs to no port any more (Port.remove_pin leaves it on its wire) *)
 
 Definition wire := list pinref.
 
@@ -241,7 +242,7 @@ Definition cmp_port (xo xc : ctx) (o c : port) : outcome :=
 Record opin := mkopin {
   op_inst : oname; op_ref : ctx; op_parent : option ctx; op_port : oname; op_bit : nat }.
 
-Inductive rpin := RIn (port : oname) (bit : nat) | ROut (p : opin) | RBad.
+Inductive rpin := RIn (port : oname) (bit : nat) | ROut (p : opin) | RBad | RLoose.
 
 Definition resolve (x : ctx) (insts : list inst) (p : pinref) : rpin :=
   match p with
@@ -260,6 +261,7 @@ Definition resolve (x : ctx) (insts : list inst) (p : pinref) : rpin :=
     ROut (mkopin None (None, None) (Some x) q b)
   | PDang n rd rl q b => ROut (mkopin n (rd, rl) None q b)
   | PForeign => RBad
+  | PLoose => RLoose
   end.
 
 (* are_instances_equivalent *)
@@ -303,6 +305,7 @@ Definition inner_equiv (bo : nat) (qo : oname) (dxo : ctx) (bc : nat) (qc : onam
 Definition cmp_pin (xo xc : ctx) (io ic : list inst) (po pc : pinref) : outcome :=
   match resolve xo io po, resolve xc ic pc with
   | RBad, _ | _, RBad => Ill
+  | RLoose, RLoose | RLoose, RIn _ _ | RIn _ _, RLoose => AttrErr   (* None.pins *)
   | RIn qo bo, RIn qc bc => inner_equiv bo qo xo bc qc xc
   | ROut o, ROut c =>
     seq (inst_equiv o c) (inner_equiv (op_bit o) (op_port o) (op_ref o) (op_bit c) (op_port c) (op_ref c))
